@@ -20,6 +20,7 @@ enum { NFD = 16, EVFD = 9 };
 static unsigned ready[NFD];                 // harness-controlled readiness of ordinary descriptors
 static unsigned reg_events[NFD]; static void *reg_ptr[NFD]; static bool reg_on[NFD];
 static unsigned long evfd_counter; static int closes[NFD]; static int epoll_waits, selects;
+static void (*on_wait)() = nullptr;       // harness hook: runs at the start of every epoll_wait()/select() (= once per loop pass) of the non-blocking seam
 static void reset() { for (int i = 0; i < NFD; i++) { ready[i] = 0; reg_events[i] = 0; reg_ptr[i] = nullptr; reg_on[i] = false; closes[i] = 0; } evfd_counter = 0; epoll_waits = selects = 0; }
 static unsigned cond(int fd) { if (fd == EVFD) return evfd_counter ? 1u : 0u; return ready[fd]; }
 }
@@ -49,11 +50,14 @@ int epoll_wait(int, struct epoll_event *evs, int maxevents, int timeout) {
     while (n == 0 && timeout != 0) { vk::cv.wait(lk); n = vk_epoll_collect(evs, maxevents); }    // sleeps until a descriptor becomes ready (no timers in these harnesses)
     return n;
 #else
-    (void)timeout; vk::epoll_waits++; return vk_epoll_collect(evs, maxevents);
+    (void)timeout; vk::epoll_waits++; if (vk::on_wait) vk::on_wait(); return vk_epoll_collect(evs, maxevents);
 #endif
 }
 int select(int nfds, fd_set *r, fd_set *w, fd_set *e, struct timeval *) {
     vk::selects++;
+#ifndef VK_BLOCKING
+    if (vk::on_wait) vk::on_wait();
+#endif
     int n = 0;
     for (int fd = 0; fd < nfds && fd < vk::NFD; fd++) {
         unsigned c = vk::cond(fd);
